@@ -26,12 +26,12 @@ pub enum Acc {
 pub const ENC_NONE: u32 = 0xFFFF_FFFE;
 
 #[derive(Clone, Copy)]
-enum HOp {
+pub enum HOp {
     Ev(KeyCode, KeyState),
     Mode(usize),
 }
 impl HOp {
-    fn show(&self) -> String {
+    pub fn show(&self) -> String {
         match self {
             HOp::Ev(k, s) => format!("{}({:?})", state_str(*s), k),
             HOp::Mode(m) => format!("set_ctrl_handling({})", mode_str(MODES[*m])),
@@ -41,7 +41,7 @@ impl HOp {
 
 /// A history built to provoke anything that remembers earlier presses: a focus key is pressed again and
 /// again (mostly without release) while modifiers, locks and the Ctrl mode change in between.
-fn history(rng: &mut Rng, focus: &[KeyCode], all: &[KeyCode], len: usize) -> Vec<HOp> {
+pub fn history(rng: &mut Rng, focus: &[KeyCode], all: &[KeyCode], len: usize) -> Vec<HOp> {
     let mut ops = Vec::with_capacity(len);
     let mut k = *rng.pick(focus);
     while ops.len() < len {
